@@ -219,4 +219,22 @@ CHECKS["C15"] = dict(
              "registers); inputs of each op are fixed deterministic vectors.",
 )
 
+CHECKS["C12"] = dict(
+        src="checks/c12.cpp", cfg="rel", link="shared", engine="B-hidden-state-explorer + C-serialising-scheduler",
+        aux=[dict(src="checks/c12_tsan.cpp", cfg="tsan", link="static")],
+        category="model_checking", design_ref="DESIGN.md section 2 (Engines B, C) and section 4, C12",
+        technique="explicit-state exploration with write traps (mprotect) on all shared storage, plus a preemption-bounded serialising scheduler over interposed library-internal calls, plus a free-running ThreadSanitizer pass",
+        text="Engine B executes every op of the alphabet (module-level entry points on shared FFT64/NTT120 modules, table kernels on shared tables, "
+             "every *_simple function in two dimensions and parameter values) from the fresh process and from every warmed state with the library's "
+             "static storage and every library-owned heap page write-protected whenever the contract forbids writes: a write traps (even a "
+             "same-value write). The library contains no lock or atomic (checked on the built object), so this decides every interleaving of any "
+             "number of threads. Engine C runs pairs (triples in the thorough tier) of real calls under a serialising scheduler and enumerates every "
+             "schedule with at most 2 (3) preemptions over ~80 interposed library-internal call boundaries; each call must return bit for bit what it "
+             "returns alone and leave the hidden state unchanged; a replayed schedule must reproduce its call sequence. The same bodies run free on "
+             "16 threads under ThreadSanitizer.",
+        note="*_simple functions are judged under their documented warm-up protocol; concurrent first use is only the detector's self-test. "
+             "Engine C sees interleavings at call boundaries only and is bounded in threads and preemptions; the reduction argument of Engine B "
+             "covers the rest provided the library stays free of synchronisation (reported as reduction_exact).",
+)
+
 NOT_YET = {}
